@@ -318,6 +318,13 @@ func genC12B(t *rapid.T, tier string) any {
 		for _, st := range s.Stmts {
 			if st.Kind == gen.StSend && !st.All && st.Sent.Kind == gen.EMon {
 				st.Sent.R = gen.NumI(int64(-1 - gen.Uniform(t, "c12b.neg", 9)))
+				// sometimes the sources are reached only through caps (or there are none)
+				switch gen.Uniform(t, "c12b.negsrc", 4) {
+				case 0:
+					st.Src = &gen.Src{Kind: gen.SCapped, Cap: gen.Mon(st.Sent.L, gen.NumI(int64(gen.Uniform(t, "c12b.negcap", 20)))), From: st.Src}
+				case 1:
+					st.Src = &gen.Src{Kind: gen.SInorder}
+				}
 				c.Fault, c.Expect = "negative amount sent", []string{model.ENegativeAmount}
 				break
 			}
@@ -362,7 +369,22 @@ func checkC12B(cc any) *ev.Verdict {
 	if r.NonEmptyWithError {
 		return v.Failf("partial", "error returned together with a result")
 	}
-	// the base script may legitimately fail for lack of funds before the fault is reached
+	// the base script may legitimately fail for lack of funds before the fault is reached -
+	// but not when the reference execution reaches the fault first: the interpreter
+	// evaluates everything the sequential reference evaluates, no later than it does
+	// (only asserted for the negative sent amount, which any implementation has to look at
+	// before it moves funds; for faults inside sources / destinations, how lazily
+	// sub-expressions are evaluated is not part of the property)
+	if r.ErrClass == model.EMissingFunds && c.Fault == "negative amount sent" {
+		m := model.Run(c.Case.Script, hx.ModelInputs(c.Case))
+		if m.Err != nil && m.Err.Class != model.EMissingFunds {
+			for _, e := range c.Expect {
+				if m.Err.Class == e {
+					return v.Failf("wrong-cause", "fault `%s` is reached before any lack of funds (reference execution: %s at statement %d) but execution reports %s\nscript: %s\nvars: %v", c.Fault, m.Err.Class, m.Err.Stmt, r.Summary(), gen.PrintCanonical(c.Case.Script), c.Case.Vars)
+				}
+			}
+		}
+	}
 	allowed := append([]string{model.EMissingFunds}, c.Expect...)
 	for _, a := range allowed {
 		if r.ErrClass == a {
